@@ -37,6 +37,10 @@ import (
 	"verifharness/refstore"
 
 	"github.com/zitadel/oidc/v3/pkg/client"
+	"github.com/zitadel/oidc/v3/pkg/client/profile"
+	"github.com/zitadel/oidc/v3/pkg/client/rp"
+	"github.com/zitadel/oidc/v3/pkg/client/rs"
+	"github.com/zitadel/oidc/v3/pkg/client/tokenexchange"
 	httphelper "github.com/zitadel/oidc/v3/pkg/http"
 	"github.com/zitadel/oidc/v3/pkg/oidc"
 	"github.com/zitadel/oidc/v3/pkg/op"
@@ -529,12 +533,12 @@ type pooled struct {
 
 var verifierPool = map[string]*pooled{}
 
-func sharedVerifier(issuer string, vs vset, custom bool, regs []reg, clients [][2]string) (*store, *op.JWTProfileVerifier) {
-	k := fmt.Sprintf("%s|%d|%d|%v", issuer, vs.maxAge, vs.offset, custom)
+func sharedVerifier(issuer string, vs vset, custom, keySetCtor bool, regs []reg, clients [][2]string) (*store, *op.JWTProfileVerifier) {
+	k := fmt.Sprintf("%s|%d|%d|%v|%v", issuer, vs.maxAge, vs.offset, custom, keySetCtor)
 	p := verifierPool[k]
 	if p == nil {
 		st := &store{}
-		p = &pooled{st: st, v: newVerifier(st, issuer, vs, custom)}
+		p = &pooled{st: st, v: newVerifier(st, issuer, vs, custom, keySetCtor)}
 		verifierPool[k] = p
 	}
 	p.st.regs, p.st.clients = regs, clients
@@ -684,18 +688,43 @@ func runAssertion(entry, tok string, st *store, v *op.JWTProfileVerifier) (obs s
 	return
 }
 
-func vTerm(issuer string, vs vset, custom bool) string {
+func vTerm(issuer string, vs vset, custom, keySetCtor bool) string {
 	sc := "SubIsIssuer"
 	if custom {
 		sc = "SubAny"
 	}
-	return emit.Ctor("mkV", emit.Str(issuer), emit.Z(int64(vs.maxAge)), emit.Z(int64(vs.offset)), sc)
+	ct := "CtorStorage"
+	if keySetCtor {
+		ct = "CtorKeySet"
+	}
+	return emit.Ctor("mkV", emit.Str(issuer), emit.Z(int64(vs.maxAge)), emit.Z(int64(vs.offset)), sc, ct)
 }
 
-func newVerifier(st *store, issuer string, vs vset, custom bool) *op.JWTProfileVerifier {
+// issuerKeySet is the key set handed to op.NewJWTProfileVerifierKeySet: it looks the
+// key up in the same storage, under the issuer the assertion names.
+type issuerKeySet struct{ st *store }
+
+func (k *issuerKeySet) VerifySignature(ctx context.Context, jws *jose.JSONWebSignature) ([]byte, error) {
+	var pl struct {
+		Iss string `json:"iss"`
+	}
+	_ = json.Unmarshal(jws.UnsafePayloadWithoutVerification(), &pl)
+	kid, _ := oidc.GetKeyIDAndAlg(jws)
+	key, err := k.st.GetKeyByIDAndClientID(ctx, kid, pl.Iss)
+	if err != nil {
+		return nil, err
+	}
+	return jws.Verify(key)
+}
+
+// newVerifier goes through one of the two public constructors, with or without the SubjectCheck option.
+func newVerifier(st *store, issuer string, vs vset, custom, keySetCtor bool) *op.JWTProfileVerifier {
 	var opts []op.JWTProfileVerifierOption
 	if custom {
 		opts = append(opts, op.SubjectCheck(func(*oidc.JWTTokenRequest) error { return nil }))
+	}
+	if keySetCtor {
+		return op.NewJWTProfileVerifierKeySet(&issuerKeySet{st: st}, issuer, vs.maxAge, vs.offset, opts...)
 	}
 	return op.NewJWTProfileVerifier(st, issuer, vs.maxAge, vs.offset, opts...)
 }
@@ -879,7 +908,9 @@ func assertionCase(r drv.Rand, w *emit.Writer, wd world, bump func(string)) {
 	case "json":
 		tok, tokTerm = malformed(r, "json", tok), "TBadJson"
 	}
-	st, v := sharedVerifier(issuer, vs, custom, regs, wd.clients)
+	keySetCtor := !router && r.Chance(1, 3)
+	tags = append(tags, fmt.Sprintf("ctor_keyset=%v", keySetCtor))
+	st, v := sharedVerifier(issuer, vs, custom, keySetCtor, regs, wd.clients)
 	if router {
 		syncRouterKeys(routerFx, regs)
 	}
@@ -895,13 +926,110 @@ func assertionCase(r drv.Rand, w *emit.Writer, wd world, bump func(string)) {
 			return
 		}
 	}
-	in := emit.Ctor("IAssert", entryTerm, "false", vTerm(issuer, vs, custom), regsTerm(regs), clientsTerm(wd.clients), emit.Z(t0), emit.Z(t1), tokTerm)
+	in := emit.Ctor("IAssert", entryTerm, "false", vTerm(issuer, vs, custom, keySetCtor), regsTerm(regs), clientsTerm(wd.clients), emit.Z(t0), emit.Z(t1), tokTerm)
 	w.Add(emit.Case{Input: in, Observed: obs, Tags: tags,
 		Human: map[string]any{"entry": entryTerm, "token": tok, "issuer": issuer, "max_age": vs.maxAge.String(), "offset": vs.offset.String(),
 			"custom_subject_check": custom, "claims": fmt.Sprintf("%+v", c), "sig": fmt.Sprintf("%+v", d), "mutations": muts}})
 }
 
 // helperCase: assertions built by the library's own client helpers.
+// ---- helper paths that build AND send an assertion: the request they send is captured
+// by an in-process RoundTripper (which also serves the discovery document) and the
+// assertion is taken from the captured form.
+
+var helperPaths = []string{"SignedJWTProfileAssertion", "GenerateJWTProfileToken", "profile.TokenSource", "profile.TokenSource.discover",
+	"tokenexchange.JWTProfile", "rs.Introspect", "rp.DeviceAuthorization", "rp.CodeExchangeHandler", "rp.CodeExchangeHandler"}
+
+type capTransport struct {
+	issuer string
+	forms  []url.Values
+}
+
+func (c *capTransport) RoundTrip(req *http.Request) (*http.Response, error) {
+	mk := func(code int, body string) *http.Response {
+		return &http.Response{StatusCode: code, Status: http.StatusText(code), Header: http.Header{"Content-Type": {"application/json"}},
+			Body: io.NopCloser(strings.NewReader(body)), Request: req, ProtoMajor: 1, ProtoMinor: 1}
+	}
+	if req.Method == http.MethodGet && strings.HasSuffix(req.URL.Path, "/.well-known/openid-configuration") {
+		doc := map[string]any{"issuer": c.issuer, "authorization_endpoint": c.issuer + "/authorize", "token_endpoint": c.issuer + "/oauth/token",
+			"introspection_endpoint": c.issuer + "/oauth/introspect", "device_authorization_endpoint": c.issuer + "/device_authorization",
+			"jwks_uri": c.issuer + "/keys", "userinfo_endpoint": c.issuer + "/userinfo"}
+		return mk(200, string(must(json.Marshal(doc)))), nil
+	}
+	if req.Body != nil {
+		b, _ := io.ReadAll(req.Body)
+		if f, err := url.ParseQuery(string(b)); err == nil {
+			c.forms = append(c.forms, f)
+		}
+	}
+	return mk(400, `{"error":"invalid_request"}`), nil
+}
+
+func (c *capTransport) assertion() (string, error) {
+	for i := len(c.forms) - 1; i >= 0; i-- {
+		if a := c.forms[i].Get("client_assertion"); a != "" {
+			return a, nil
+		}
+		if a := c.forms[i].Get("assertion"); a != "" {
+			return a, nil
+		}
+	}
+	return "", errors.New("the helper sent no assertion")
+}
+
+func sentAssertion(which, issuer, clientID, kid string, pemKey []byte) (string, error) {
+	ctx, cancel := context.WithTimeout(context.Background(), 5*time.Second)
+	defer cancel()
+	ct := &capTransport{issuer: issuer}
+	hc := &http.Client{Transport: ct, Timeout: 5 * time.Second}
+	tokenURL := issuer + "/oauth/token"
+	switch which {
+	case "profile.TokenSource", "profile.TokenSource.discover":
+		var ts profile.TokenSource
+		var err error
+		if which == "profile.TokenSource" {
+			ts, err = profile.NewJWTProfileTokenSource(ctx, issuer, clientID, kid, pemKey, []string{"openid"},
+				profile.WithHTTPClient(hc), profile.WithStaticTokenEndpoint(issuer, tokenURL))
+		} else {
+			ts, err = profile.NewJWTProfileTokenSource(ctx, issuer, clientID, kid, pemKey, []string{"openid"}, profile.WithHTTPClient(hc))
+		}
+		if err != nil {
+			return "", err
+		}
+		_, _ = ts.TokenCtx(ctx)
+	case "tokenexchange.JWTProfile":
+		signer, err := client.NewSignerFromPrivateKeyByte(pemKey, kid)
+		if err != nil {
+			return "", err
+		}
+		te, err := tokenexchange.NewTokenExchangerJWTProfile(ctx, issuer, clientID, signer, tokenexchange.WithHTTPClient(hc))
+		if err != nil {
+			return "", err
+		}
+		_, _ = tokenexchange.ExchangeToken(ctx, te, "subject-token", oidc.AccessTokenType, "", "", nil, nil, nil, "")
+	case "rs.Introspect":
+		rsv, err := rs.NewResourceServerJWTProfile(ctx, issuer, clientID, kid, pemKey, rs.WithClient(hc))
+		if err != nil {
+			return "", err
+		}
+		_, _ = rs.Introspect[*oidc.IntrospectionResponse](ctx, rsv, "some-token")
+	case "rp.DeviceAuthorization", "rp.CodeExchangeHandler":
+		party, err := rp.NewRelyingPartyOIDC(ctx, issuer, clientID, "", "https://rp.example.com/cb", []string{"openid"},
+			rp.WithJWTProfile(rp.SignerFromKeyAndKeyID(pemKey, kid)), rp.WithHTTPClient(hc))
+		if err != nil {
+			return "", err
+		}
+		if which == "rp.DeviceAuthorization" {
+			_, _ = rp.DeviceAuthorization(ctx, []string{"openid"}, party, nil)
+		} else {
+			h := rp.CodeExchangeHandler(func(http.ResponseWriter, *http.Request, *oidc.Tokens[*oidc.IDTokenClaims], string, rp.RelyingParty) {}, party)
+			req := httptest.NewRequest(http.MethodGet, "https://rp.example.com/cb?code=some-code&state=st", nil).WithContext(ctx)
+			h(httptest.NewRecorder(), req)
+		}
+	}
+	return ct.assertion()
+}
+
 func helperCase(r drv.Rand, w *emit.Writer, wd world, bump func(string)) {
 	entry := drv.Pick(r, entries)
 	issuer := drv.Pick(r, issuers)
@@ -922,7 +1050,7 @@ func helperCase(r drv.Rand, w *emit.Writer, wd world, bump func(string)) {
 		entryTerm = rcall.term()
 		issuer, vs = "https://"+rcall.host, vset{time.Hour, time.Second}
 	}
-	which := drv.Pick(r, []string{"SignedJWTProfileAssertion", "GenerateJWTProfileToken"})
+	which := drv.Pick(r, helperPaths)
 	aud := []string{issuer}
 	if r.Chance(1, 5) {
 		aud = []string{"https://other.example.com", issuer}
@@ -936,8 +1064,10 @@ func helperCase(r drv.Rand, w *emit.Writer, wd world, bump func(string)) {
 			if err == nil {
 				tok, err = client.SignedJWTProfileAssertion(cd.client, aud, time.Hour, s)
 			}
-		} else {
+		} else if which == "GenerateJWTProfileToken" {
 			tok, err = oidc.GenerateJWTProfileToken(oidc.NewJWTProfileAssertion(cd.client, cd.kid, aud, cd.key.pem))
+		} else {
+			tok, err = sentAssertion(which, issuer, cd.client, cd.kid, cd.key.pem)
 		}
 	})
 	if p != "" || err != nil { // the helper produced no assertion (e.g. P-384 key: ES256 does not fit)
@@ -964,7 +1094,8 @@ func helperCase(r drv.Rand, w *emit.Writer, wd world, bump func(string)) {
 	}
 	d := sigDesc{true, hdr.Alg, hdr.Kid, cd.key.id, true}
 	c := claimsD{pl.Iss, pl.Sub, pl.Aud, pl.Iat, pl.Exp}
-	st, v := sharedVerifier(issuer, vs, false, wd.regs, wd.clients)
+	keySetCtor := !router && r.Chance(1, 3)
+	st, v := sharedVerifier(issuer, vs, false, keySetCtor, wd.regs, wd.clients)
 	if router {
 		syncRouterKeys(routerFx, wd.regs)
 	}
@@ -973,10 +1104,10 @@ func helperCase(r drv.Rand, w *emit.Writer, wd world, bump func(string)) {
 		bump("clock_ambiguous")
 		return
 	}
-	in := emit.Ctor("IAssert", entryTerm, "true", vTerm(issuer, vs, false), regsTerm(wd.regs), clientsTerm(wd.clients), emit.Z(t0), emit.Z(t1),
+	in := emit.Ctor("IAssert", entryTerm, "true", vTerm(issuer, vs, false, keySetCtor), regsTerm(wd.regs), clientsTerm(wd.clients), emit.Z(t0), emit.Z(t1),
 		emit.Ctor("TJws", d.term(), c.term()))
 	w.Add(emit.Case{Input: in, Observed: obs,
-		Tags: []string{"kind=assertion", "entry=" + entry, "helper=1", "helperfn=" + which, "keytype=" + cd.key.kind},
+		Tags: []string{"kind=assertion", "entry=" + entry, "helper=1", "helperfn=" + which, "keytype=" + cd.key.kind, fmt.Sprintf("ctor_keyset=%v", keySetCtor)},
 		Human: map[string]any{"entry": entryTerm, "token": tok, "issuer": issuer, "helper": which, "client": cd.client, "kid": cd.kid, "key": cd.key.id,
 			"claims": fmt.Sprintf("%+v", c), "sig": fmt.Sprintf("%+v", d)}})
 }
